@@ -2,7 +2,9 @@ package participle
 
 import (
 	"fmt"
+	"reflect"
 	"strings"
+	"unicode"
 )
 
 // String returns the EBNF for the grammar.
@@ -10,6 +12,21 @@ import (
 // Productions are always upper cased. Lexer tokens are always lower case.
 func (p *Parser[G]) String() string {
 	return ebnf(p.typeNodes[p.rootType])
+}
+
+// productionName returns the EBNF name of the production for typ.
+func productionName(typ reflect.Type) string {
+	name := typ.Name()
+	if name == "" {
+		// Anonymous types have no name of their own: derive an identifier from the type's description.
+		name = strings.Map(func(r rune) rune {
+			if unicode.IsLetter(r) || unicode.IsDigit(r) {
+				return r
+			}
+			return -1
+		}, typ.String())
+	}
+	return strings.ToUpper(name[:1]) + name[1:]
 }
 
 type ebnfp struct {
@@ -52,7 +69,7 @@ func buildEBNF(root bool, n node, seen map[node]bool, p *ebnfp, outp *[]*ebnfp) 
 		}
 
 	case *union:
-		name := strings.ToUpper(n.typ.Name()[:1]) + n.typ.Name()[1:]
+		name := productionName(n.typ)
 		if p != nil {
 			p.out += name
 		}
@@ -70,11 +87,11 @@ func buildEBNF(root bool, n node, seen map[node]bool, p *ebnfp, outp *[]*ebnfp) 
 		}
 
 	case *custom:
-		name := strings.ToUpper(n.typ.Name()[:1]) + n.typ.Name()[1:]
+		name := productionName(n.typ)
 		p.out += name
 
 	case *strct:
-		name := strings.ToUpper(n.typ.Name()[:1]) + n.typ.Name()[1:]
+		name := productionName(n.typ)
 		if p != nil {
 			p.out += name
 		}
